@@ -12,6 +12,12 @@ than the limit."
 Property theorems only; the proofs' machinery is in Eru/Strategy/Proofs*.lean.  The model is
 Eru/Strategy/Model.lean (`deploy` = strategy.Deploy); `c01` (Eru/Strategy/Spec.lean) is the very
 predicate the oracle evaluates on the Go implementation's plans.
+
+`Valid` puts no upper bound on a node's `count` (nor is the requested count bounded here); Go's `Count++`
+and `need-Count` cannot overflow only for counts well below MaxInt64 — instance counts are numbers of
+workloads, far below that bound, which is a trusted-base assumption.  The assembly of the candidate list
+itself by `Calcium.doGetDeployStrategy` has no Lean model; it is covered by the cluster-level
+correspondence stream (harness/stratc).
 -/
 namespace Eru.Props.C01
 open Eru Eru.Strategy
